@@ -147,7 +147,7 @@ class Fn:
     def __init__(self, name, props=(), ret=None, requires=(), ensures=(), decreases=None,
                  loops=None, before=(), after=(), rewrites=(), nth=0, emit_name=None,
                  external_body=False, sig_rewrites=(), opens=None, attrs=(), known=(), no_std_rewrites=False,
-                 recommends=(), prologue=None, decl_only=False, from_block=None, reach_guard=False):
+                 recommends=(), prologue=None, decl_only=False, from_block=None, reach_guard=False, region=None):
         self.name = name
         self.props = list(props)
         self.ret = ret
@@ -168,6 +168,9 @@ class Fn:
         self.prologue = prologue
         self.decl_only = decl_only
         self.reach_guard = reach_guard
+        # R-region: (start_anchor, end_anchor, signature, tail): the statements of the function from start_anchor up to
+        # (not including) end_anchor are emitted as the body of a new function with the given signature; `tail` is appended
+        self.region = region
         self.from_block = from_block   # (file, header): R-flatten, take the fn from another trait/impl block
 
 
@@ -382,13 +385,37 @@ class Unit:
         if fn.decl_only:
             sig = sig.rstrip()
         body = rf.text[bo:end] if bo is not None else ';'
+        body_line = rf.line_of(bo) if bo is not None else None
+        if fn.region:
+            ra, rb, rsig, rtail = fn.region
+            full = rf.text[bo:end]
+            def _find(anchor):
+                if anchor.startswith('re:'):
+                    ms = list(re.finditer(anchor[3:], full))
+                    if len(ms) != 1:
+                        raise ExtractError(f"{file}: {fn.name}: region anchor {anchor!r} matches {len(ms)} times")
+                    return ms[0].start()
+                if full.count(anchor) != 1:
+                    raise ExtractError(f"{file}: {fn.name}: region anchor {anchor!r} occurs {full.count(anchor)} times")
+                return full.index(anchor)
+            ia, ib = _find(ra), _find(rb)
+            if not ia < ib:
+                raise ExtractError(f"{file}: {fn.name}: region anchors out of order")
+            # start at the beginning of the line of the start anchor
+            ia = full.rfind('\n', 0, ia) + 1
+            ib = full.rfind('\n', 0, ib) + 1
+            self.rewrite_log.append(dict(rule='R-region', at=f"{file}:{rf.line_of(bo + ia)}-{rf.line_of(bo + ib)}",
+                                         what=f"statements of {fn.name} between {ra!r} and {rb!r} emitted as `{rsig}`; the rest of the function is dropped"))
+            sig = re.sub(r'\bfn\s+\w+', 'fn ' + emit_name, rsig, count=1) + ' '
+            body = '{\n' + full[ia:ib] + (rtail or '') + '\n}'
+            body_line = rf.line_of(bo + ia) - 1
         # ---------------- signature
         ssl = Slice(sig, file, line0, self.rewrite_log)
         if not fn.no_std_rewrites:
             std_rewrites(ssl)
         for rw in fn.sig_rewrites:
             ssl.sub(rw[0], rw[1], rw[2], require=True)
-        if fn.emit_name:
+        if fn.emit_name and not fn.region:
             ssl.sub('R-rename', r'\bfn\s+' + re.escape(fn.name) + r'\b', 'fn ' + fn.emit_name, count=1, require=True)
         if fn.ret:
             ssl.text = name_return(ssl.text, fn.ret)
@@ -419,7 +446,7 @@ class Unit:
         if bo is None:
             self.emit('    ;', ('src', file, rf.line_of(end - 1)))
         else:
-            bline = rf.line_of(bo)
+            bline = body_line
             bsl = Slice(body, file, bline, self.rewrite_log)
             if not fn.no_std_rewrites:
                 std_rewrites(bsl)
@@ -498,7 +525,8 @@ class Unit:
                         pos = text.index(anchor, pos + 1)
                     if where == 'after':
                         pos += len(anchor)
-                inserts.append((pos, '\n' + t.strip('\n') + '\n', ('clause', f"{qual}/hint_{where}{k}")))
+                label = item[3] if len(item) > 3 else None
+                inserts.append((pos, '\n' + t.strip('\n') + '\n', ('clause', f"{qual}/{label}/hint_{where}{k}" if label else f"{qual}/hint_{where}{k}")))
         inserts.sort(key=lambda x: x[0])
         # stable for same pos: keep insertion order
         out = []
